@@ -34,6 +34,7 @@ func funcVarSeamOverlays(fset *token.FileSet, repo []*packages.Package, overlay 
 		text   string // source text of the function expression
 		pkgRef string // import path the text refers to through a package name ("" for a function of the same package)
 		pkgNm  string
+		fname  string
 		declP  *packages.Package
 	}
 	seams := map[*types.Var]*seam{}
@@ -58,7 +59,32 @@ func funcVarSeamOverlays(fset *token.FileSet, repo []*packages.Package, overlay 
 					}
 					var fobj *types.Func
 					s := &seam{v: v, declP: p}
-					switch x := vs.Values[0].(type) {
+					val := vs.Values[0]
+					if fl, ok := val.(*ast.FuncLit); ok {
+						// a literal that only forwards its parameters, in order, to one function and returns its result
+						if fl.Body != nil && len(fl.Body.List) == 1 {
+							if rs, ok := fl.Body.List[0].(*ast.ReturnStmt); ok && len(rs.Results) == 1 {
+								if ce, ok := rs.Results[0].(*ast.CallExpr); ok && ce.Ellipsis == token.NoPos {
+									var pnames []string
+									for _, fld := range fl.Type.Params.List {
+										for _, nm := range fld.Names {
+											pnames = append(pnames, nm.Name)
+										}
+									}
+									same := len(pnames) == len(ce.Args)
+									for i, a := range ce.Args {
+										if id, ok := a.(*ast.Ident); !ok || !same || id.Name != pnames[i] {
+											same = false
+										}
+									}
+									if same {
+										val = ce.Fun
+									}
+								}
+							}
+						}
+					}
+					switch x := val.(type) {
 					case *ast.Ident:
 						fobj, _ = p.TypesInfo.Uses[x].(*types.Func)
 					case *ast.SelectorExpr:
@@ -74,7 +100,8 @@ func funcVarSeamOverlays(fset *token.FileSet, repo []*packages.Package, overlay 
 					}
 					b := src(fset.Position(vs.Pos()).Filename)
 					s.fn = fobj
-					s.text = string(b[fset.Position(vs.Values[0].Pos()).Offset:fset.Position(vs.Values[0].End()).Offset])
+					s.text = string(b[fset.Position(val.Pos()).Offset:fset.Position(val.End()).Offset])
+					s.fname = fobj.Name()
 					seams[v] = s
 				}
 			}
@@ -192,6 +219,7 @@ func funcVarSeamOverlays(fset *token.FileSet, repo []*packages.Package, overlay 
 		}
 	}
 	edits := map[string][]textEdit{}
+	addedImport := map[string]bool{}
 	var notes []string
 	var vs []*types.Var
 	for v := range seams {
@@ -223,7 +251,17 @@ func funcVarSeamOverlays(fset *token.FileSet, repo []*packages.Package, overlay 
 					okImp = nm == s.pkgNm
 				}
 				if !okImp {
-					continue
+					// the file does not import the function's package (under that name): the import is added on the line
+					// of the package clause (line numbers stay as they are)
+					alias := "seam__" + strings.NewReplacer("-", "_", ".", "_").Replace(s.pkgRef[strings.LastIndex(s.pkgRef, "/")+1:])
+					fname := fset.Position(f.Pos()).Filename
+					key := fname + "|" + s.pkgRef
+					if !addedImport[key] {
+						addedImport[key] = true
+						off := fset.Position(f.Name.End()).Offset
+						edits[fname] = append(edits[fname], textEdit{off, off, "; import " + alias + " \"" + s.pkgRef + "\""})
+					}
+					text = alias + "." + s.fname
 				}
 			}
 			fn := fset.Position(c.Fun.Pos()).Filename
